@@ -502,7 +502,9 @@ def _run(ck, tier, root, static_broken):
     edge("input-missing-to-existing-file", ["c0/no-such-file.scss", "c0/e-missing.css"], out_mode="file-existing", out_path="c0/e-missing.css")
     edge("input-not-utf8", ["c0/latin1.scss"])
     edge("input-dash-is-a-file-name", ["-"])
-    edge("output-dash-is-a-file-name", [base, "-"], out_mode="file-new", out_path="-")
+    # (removed after a false alarm on the unchanged tree: an "output-dash" edge case created a file named `-` in the
+    #  shared working directory, which a concurrently running "input-dash" case then read — a race inside the check,
+    #  not a behaviour of grass; see DESIGN §11.8)
     edge("stdin-empty", ["--stdin"], stdin=b"")
     edge("stdin-empty-to-file", ["--stdin", "c0/e-empty.css"], stdin=b"", out_mode="file-new", out_path="c0/e-empty.css")
     edge("stdin-not-utf8", ["--stdin"], stdin=b"a{b:\xff}")
